@@ -23,6 +23,10 @@
 #include "evstrm.h"
 
 #define C05_MAXOCC	200
+/* occurrences are compared up to the end of this year: the fillers' weekday arithmetic takes 2100
+ * for a leap year (FREQ=WEEKLY;BYDAY=MO lands on Sundays from 2101 on), which is C01/C16's matter
+ * and shows up differently depending on where a refill boundary falls */
+#define C05_MAXYEAR	2099U
 #define C05_NATT	4
 
 /* ---------- observation ---------- */
@@ -376,7 +380,7 @@ c05_drain(echs_evstrm_t s, struct c05_occ *o, int max, int *more)
 		if (echs_nul_event_p(e)) {
 			break;
 		}
-		if (n >= max) {
+		if (n >= max || (e.from.y & 0x0fffU) > C05_MAXYEAR) {
 			*more = 1;
 			break;
 		}
@@ -454,6 +458,10 @@ c05_rulepart(char *out, size_t osz, const char *text, const char *prop, int nth,
 		tok[ntok++][l] = '\0';
 		if (*p == ',') p++;
 	}
+	if (!strcmp(key, "SCALE") && ntok == 1 && !strcmp(tok[0], "HIJRI")) {
+		/* README: SCALE=HIJRI is the Umm al-Qura calendar, which is how it is written back */
+		snprintf(tok[0], sizeof(tok[0]), "HIJRI.UMMULQURA");
+	}
 	qsort(tok, (size_t)ntok, sizeof(tok[0]), (int(*)(const void*, const void*))strcmp);
 	for (int i = 0; i < ntok; i++) {
 		size_t l = strlen(out);
@@ -475,6 +483,28 @@ c05_nlines(const char *text, const char *prop)
 	return n;
 }
 
+/* does the parser under test understand the serialiser's own spelling BYPOS? (asked once, to name causes only) */
+static int
+c05_reads_bypos(void)
+{
+	static int known = -1;
+	if (known < 0) {
+		echs_task_t t = ical_task1("BEGIN:VCALENDAR\nBEGIN:VEVENT\nUID:c05-probe\nSUMMARY:x\nDTSTART;VALUE=DATE:20240101\n"
+					   "RRULE:FREQ=YEARLY;BYMONTH=1;BYMONTHDAY=1,2;BYPOS=1;COUNT=4\nEND:VEVENT\nEND:VCALENDAR\n");
+		known = 0;
+		if (t != NULL) {
+			if (t->strm != NULL) {
+				(void)echs_evstrm_pop(t->strm);
+				echs_event_t e = echs_evstrm_pop(t->strm);
+				/* with BYPOS honoured the second occurrence is 1 January of the next year */
+				known = !echs_nul_event_p(e) && (e.from.d & 0x3fU) == 1U;
+			}
+			free_echs_task(t);
+		}
+	}
+	return known;
+}
+
 /* the property or rule part of ORIG (schedule lines) that did not make it into WRITTEN unchanged;
  * only used to name a difference the stream comparison has already established */
 static const char*
@@ -493,7 +523,11 @@ c05_whatchanged(const char *orig, const char *written, int na, int nb, int cut)
 		for (int r = 0; r < nr; r++) {
 			for (const char *const *k = parts; *k; k++) {
 				const int ha = c05_rulepart(a, sizeof(a), orig, *pr, r, *k);
-				const int hb = c05_rulepart(b, sizeof(b), written, *pr, r, *k);
+				int hb = c05_rulepart(b, sizeof(b), written, *pr, r, *k);
+				if (!hb && !strcmp(*k, "BYSETPOS") && c05_reads_bypos()) {
+					/* the serialiser's spelling, fine if the parser reads it */
+					hb = c05_rulepart(b, sizeof(b), written, *pr, r, "BYPOS");
+				}
 				if (ha != hb || (ha && strcmp(a, b))) {
 					return *k;
 				}
@@ -630,7 +664,7 @@ struct c05_rt_s {
 typedef void (*c05_attr_cb)(int fld, const char *how, const char *want, const char *got, void *clo);
 
 /* TEXT: calendar with one event; K pops; write (FORM); re-read; compare.
- * returns -1 if TEXT yields no task at all */
+ * returns -1 if TEXT yields no task at all, 1 if the K pops left the horizon (nothing compared) */
 static int
 c05_roundtrip(struct c05_rt_s *r, const char *text, const char *sched, int k, int form, c05_attr_cb acb, void *clo)
 {
@@ -648,8 +682,14 @@ c05_roundtrip(struct c05_rt_s *r, const char *text, const char *sched, int k, in
 		return -1;
 	}
 	for (int i = 0; i < k && a->strm != NULL; i++) {
-		if (echs_nul_event_p(echs_evstrm_pop(a->strm))) {
+		echs_event_t e = echs_evstrm_pop(a->strm);
+		if (echs_nul_event_p(e)) {
 			break;
+		} else if ((e.from.y & 0x0fffU) > C05_MAXYEAR) {
+			/* consumed beyond the horizon of the comparison (and, for sparse rules, towards the
+			 * end of the 12-bit year range where streams wrap): nothing to judge here */
+			free_echs_task(a);
+			return 1;
 		}
 	}
 	{
